@@ -157,6 +157,7 @@ func (e *Engine) VerifyFunc(fi *FuncInfo, fc *FuncContract) (rep funcReport) {
 	}()
 	e.prepFunc(fi)
 	e.curFn = fi.Key
+	e.noMerge = fc != nil && fc.Options["nomerge"] != ""
 	st := NewState()
 	fr := &Frame{e: e, fn: fi, info: fi.Pkg.TypesInfo, fc: fc}
 	fr.top = fr
